@@ -65,6 +65,9 @@ impl Summary {
         self.samples.extend(o.samples);
         self
     }
+    pub fn merge_pub(self, o: Summary) -> Summary {
+        self.merge(o)
+    }
     pub fn accepted(&self, era: Era) -> u64 {
         self.accepted_by_era.get(era.name()).copied().unwrap_or(0)
     }
